@@ -24,7 +24,7 @@ from . import c13_san
 MANIFEST = {
     "technique": "TLA+ decision tables for the rule-based planner, the one-shot retrieval refinement, the turn's retrieval count, token truncation and the LLM-plan sanitiser, enumerated exhaustively by TLC with the cap / threshold / refinement / acceptance clauses as invariants; every enumerated case concretised and replayed on the real deliberate, rag_once, speak, llm_speak, run_turn and parse_and_validate; seeded random bundles and seeded garbage strings for purity and totality",
     "text": "Exhaustive enumeration of class vectors (similarity on both sides of each threshold incl. neighbouring doubles, labels, touched nodes around epsilon, per-turn and per-slice op caps incl. 0, retrieved-score classes, max_rag_loops, raw token counts x token budgets, sanitiser classes fence x payload x prose x size x plan x item x rationale x extra key x reflection) with the expected result from the documented rules, bound to the code by running each case through the real functions and through run_turn with a counting retrieval wrapper; planner purity by repeated calls and deep comparison of arguments; sanitiser totality by seeded random unicode, deep nesting, huge, binary-ish and surrogate strings.",
-    "note": "Totality over all strings is bounded testing. Thresholds are carried by the bundle (the planner is a function of its bundle); run_turn cases use what run_turn puts into the bundle. A Speak op with max_tokens=0 whose bundle carries a different agent token cap is guarded out (0 is treated as 'unset' by speak). Fenced input: the function docstring (single json/jsonc/untagged block accepted) is followed where docs/m3 says 'no code fences'.",
+    "note": "Totality over all strings is bounded testing. Thresholds are carried by the bundle (the planner is a function of its bundle); run_turn cases use what run_turn puts into the bundle (configured t3.policy.* is not propagated there - out-of-scope observation). The utterance is observed at the dialogue seam (speak / llm_speak result, logged speak metrics); when it is empty run_turn echoes the input text as TurnResult.line, which is not judged as an utterance. A Speak op with max_tokens=0 whose bundle carries a different agent token cap is guarded out (0 is treated as 'unset' by speak). Fenced input: the parse_and_validate docstring (single json/jsonc/untagged block accepted) is followed where docs/m3 says 'no code fences'. With the scheduler on, only the t3_ops budget is allowed to bind (huge quantum/wall)."
 }
 
 NONE = 99
@@ -282,6 +282,9 @@ def run_one_turn(inp, sim: float, rag: float, variant: str) -> Dict[str, Any]:
     cfg["t4"]["snapshot_dir"] = os.path.join(wd, "snap")
     if variant == "llm":
         cfg["t3"]["backend"] = "llm"
+    if inp["slice"] != NONE:        # scheduler on: only the t3_ops budget can bind (huge quantum / wall, no other budgets)
+        cfg["scheduler"] = AD(enabled=True, policy="round_robin", quantum_ms=HUGE,
+                              budgets=AD(t3_ops=inp["slice"], wall_ms=HUGE), fairness=AD(max_consecutive_turns=1, aging_ms=0))
     entries: List[Dict[str, Any]] = []
     for j in range(inp["nbig"]):
         e = {"id": IDS_BIG[j], "delta": BIG[j]}
@@ -385,7 +388,8 @@ def replay_turn(case) -> Dict[str, Any]:
         b = obs.get("bundle") or {}
         pol = (b.get("cfg", {}).get("t3", {}) or {}).get("policy") or {}
         thr = (float(pol.get("tau_low", 0.4)), float(pol.get("tau_high", 0.8)))
-        if thr != (0.4, 0.8) or b.get("agent", {}).get("caps", {}).get("ops") != inp["cap"] or b.get("slice_caps"):
+        want_slice = {} if inp["slice"] == NONE else {"t3_ops": inp["slice"]}
+        if thr != (0.4, 0.8) or b.get("agent", {}).get("caps", {}).get("ops") != inp["cap"] or (b.get("slice_caps") or {}) != want_slice:
             guarded += 1          # the bundle run_turn built is outside this table (thresholds / caps differ)
             continue
         calls = obs["t2_calls"]
@@ -393,6 +397,18 @@ def replay_turn(case) -> Dict[str, Any]:
             fails.append(_fail("AtMostOneRefinement", f"{where}: {calls} retrieval calls in the turn (queries {obs['queries']})", family="turn"))
         elif calls != out["calls"]:
             fails.append(_fail("RetrievalMatchesTable", f"{where}: {calls} retrieval calls in the turn (queries {obs['queries']}), table says {out['calls']}", family="turn"))
+        did_yield = any(s == "turn.jsonl" and p.get("yielded") for s, p in obs["logs"])
+        if did_yield != bool(out["yielded"]):
+            fails.append(_fail("OpsMatchTable", f"{where}: turn yielded={did_yield}, table says {out['yielded']} (slice t3_ops budget {inp['slice']})", family="turn", what="yield"))
+            break
+        if out["yielded"]:
+            # the turn stops at the stage boundary after planning: judge the planner's plan, nothing was spoken
+            fails += clause_checks(inp, out, obs.get("plan0"), where, "turn", check_rr=True)
+            if "plan" in obs or any(s == "t3_dialogue.jsonl" for s, _p in obs["logs"]):
+                fails.append(_fail("OpsMatchTable", f"{where}: the slice's t3_ops budget was used up but the turn went on to speak", family="turn", what="yield"))
+            if fails:
+                break
+            continue
         if variant == "patched":
             fails += clause_checks(inp, out, obs.get("plan"), where, "turn", check_rr=True)
             p0 = obs.get("plan0")
@@ -579,10 +595,10 @@ def random_bundle(args) -> Dict[str, Any]:
 
 
 # ---- driver -----------------------------------------------------------------------------------------
-CONSTS_Q = {"ThrIdx": [1, 2, 3], "NBig": [0, 1, 5], "NSmall": [0, 2], "Caps": [0, 1, 2, 3, 4], "SliceCaps": [0, 1, 2, 3, 4, NONE],
+CONSTS_Q = {"TurnSlices": [NONE, 1, 2], "ThrIdx": [1, 2, 3], "NBig": [0, 1, 5], "NSmall": [0, 2], "Caps": [0, 1, 2, 3, 4], "SliceCaps": [0, 1, 2, 3, 4, NONE],
             "RagScores": [0, 1, 3], "RagLoops": [0, 1, 2], "RawTokens": [0, 1, 2, 3, 4, 5, 6, 255, 256, 257, 400],
-            "Budgets": [0, 1, 3, 256], "SanFull": False}
-CONSTS_T = {"ThrIdx": [1, 2, 3, 4], "NBig": [0, 1, 2, 3, 4, 5], "NSmall": [0, 1, 2, 3, 4, 5], "Caps": [0, 1, 2, 3, 4],
+            "Budgets": [0, 1, 3, 256], "SanFull": True}
+CONSTS_T = {"TurnSlices": [NONE, 0, 1, 2, 3], "ThrIdx": [1, 2, 3, 4], "NBig": [0, 1, 2, 3, 4, 5], "NSmall": [0, 1, 2, 3, 4, 5], "Caps": [0, 1, 2, 3, 4],
             "SliceCaps": [0, 1, 2, 3, 4, NONE], "RagScores": [0, 1, 2, 3, 4], "RagLoops": [0, 1, 2, 5],
             "RawTokens": [0, 1, 2, 3, 4, 5, 6, 7, 255, 256, 257, 400, 1000], "Budgets": [0, 1, 3, 256], "SanFull": True}
 
@@ -650,6 +666,8 @@ def check(run) -> None:
         if part == "Delib":
             run.ok("Delib.cases_with_retrieve_request", sum(1 for c in cases if "RequestRetrieve" in c["out"]["ops"]))
             run.ok("Delib.cases_cut_by_cap", sum(1 for c in cases if len(c["out"]["ops"]) == c["out"]["mincap"]))
+        if part == "Turn":
+            run.ok("Turn.cases_yielded_after_planning", sum(1 for c in cases if c["out"]["yielded"]))
         if part in ("Rag", "Turn"):
             run.ok(f"{part}.cases_refined", sum(1 for c in cases if c["out"]["refined"]))
         if part == "Speak":
@@ -686,6 +704,7 @@ def check(run) -> None:
         "Speak op with max_tokens=0 and a different agent token cap is guarded out (which of the two is the budget is undocumented)",
         "single fenced json/jsonc/untagged block is accepted (parse_and_validate docstring); docs/m3 'no code fences' describes the fixture path",
         "SanitiserTotal is bounded testing over seeded garbage families",
+        "utterance = result of speak/llm_speak at the dialogue seam; run_turn's echo of the input text for an empty utterance is not an utterance",
     ]
 
 
